@@ -34,8 +34,9 @@ def reader_units(ctx) -> dict:
     fi = P.func(f"{BH}.LT.get_value_in_millis")
     units = {}
     for n in ast.walk(fi.node):
-        if isinstance(n, ast.If) and isinstance(n.test, ast.Compare) and dotted(n.test.left) == "self.base":
-            member = (dotted(n.test.comparators[0]) or "").split(".")[-1]
+        other = sem.eq_other(n.test, lambda e: dotted(e) == "self.base") if isinstance(n, ast.If) else None
+        if other is not None:
+            member = (dotted(other) or "").split(".")[-1]
             for b in n.body:
                 if isinstance(b, ast.Return) and isinstance(b.value, ast.BinOp) and isinstance(b.value.op, ast.Mult):
                     l, r = b.value.left, b.value.right
